@@ -53,14 +53,5 @@ I_C13 == C13(SnOf, M.calls, M.res)
 I_C09 == C09(SnOf, M.calls, M.res)
 I_C10 == C10(SnOf, M.calls, M.res)
 I_C12 == C12(SnOf, M.calls)
-\* per-reconcile part of C08: an unchanged template never adds a revision; the update revision carries the set's template;
-\* a template seen before is reused and renumbered above all others; a colliding name with other data is never written
-UpdName == UpdObs(SnOf, M.calls)
-I_C08 == /\ (\E x \in SeqToSet(Listed(SnOf.revs)) : x.tmpl = tmpl) => ~\E k \in Idx(M.calls) : IsRevCreate(M.calls[k])
-         /\ \A k \in Idx(M.calls) : (IsRevCreate(M.calls[k]) /\ OK(M.calls[k])) => Det(M.calls[k]) = tmpl
-         /\ \A k \in Idx(M.calls) : (IsRevUpdate(M.calls[k]) /\ Det(M.calls[k]) = "renumber") =>
-               /\ \E x \in SeqToSet(Listed(SnOf.revs)) : x.name = Name(M.calls[k]) /\ x.tmpl = tmpl
-               /\ \A x \in SeqToSet(Listed(SnOf.revs)) : Ints(M.calls[k])[1] > x.num
-         /\ \A k \in Idx(M.calls) : (IsWrite(M.calls[k]) /\ Res(M.calls[k]) = "controllerrevisions" /\ ~IsRevCreate(M.calls[k])) =>
-               \A x \in SquatRev : x.name # Name(M.calls[k])
+I_C08 == C08(SnOf, M.calls, M.res)
 =======================================================================================
